@@ -607,7 +607,17 @@ class FormulaTranslator(object):
             return Val('B', out)
         if isinstance(node, ast.Compare):
             if len(node.ops) != 1:
-                raise Unsupported('chained comparison `%s` (line %d)' % (self.src(node), node.lineno))
+                # a < b < c  is  (a < b) and (b < c): operands here are side-effect free, so evaluating `b` twice is harmless
+                if not all(isinstance(o, (ast.Lt, ast.Gt, ast.LtE, ast.GtE)) for o in node.ops):
+                    raise Unsupported('chained comparison `%s` (line %d)' % (self.src(node), node.lineno))
+                operands = [node.left] + list(node.comparators)
+                out = None
+                for a, o, b in zip(operands, node.ops, operands[1:]):
+                    v = self.expr(ast.copy_location(ast.Compare(left=a, ops=[o], comparators=[b]), node), env)
+                    if v.t != 'B':
+                        raise Unsupported('chained comparison of non-scalars `%s` (line %d)' % (self.src(node), node.lineno))
+                    out = v.e if out is None else ('and', out, v.e)
+                return Val('B', out)
             op = node.ops[0]
             if isinstance(op, (ast.Eq, ast.NotEq, ast.In, ast.NotIn, ast.Is, ast.IsNot)):
                 return self.compare_symbolic(node, env)
@@ -1530,6 +1540,26 @@ def make_frag_leading_raises(result_name):
     return frag
 
 
+def frag_quantile_level_check(fn):
+    """`GAM._get_quantiles`: the body of the first top-level `for quantile in quantiles:` loop when it is a single
+    `if …: raise …` (the per-level range check), followed by a synthetic `checked = quantile`"""
+    for s in fn.body:
+        if isinstance(s, ast.For) and isinstance(s.target, ast.Name) and s.target.id == 'quantile' \
+                and isinstance(s.iter, ast.Name) and s.iter.id == 'quantiles' and not s.orelse:
+            body = s.body
+            if len(body) == 1 and isinstance(body[0], ast.If) and not body[0].orelse and len(body[0].body) == 1 \
+                    and isinstance(body[0].body[0], ast.Raise):
+                ln = body[0].end_lineno or body[0].lineno
+                assign = ast.parse('checked = quantile').body[0]
+                for node in ast.walk(assign):
+                    if hasattr(node, 'lineno'):
+                        node.lineno = ln
+                        node.end_lineno = ln
+                return [body[0], assign]
+            raise Unsupported('the first `for quantile in quantiles:` loop is not a single `if …: raise …`')
+    raise Unsupported('no top-level `for quantile in quantiles:` loop')
+
+
 frag_leading_raises = make_frag_leading_raises('n_draws')
 
 
@@ -1579,6 +1609,10 @@ def decision_specs(trees):
                              pre=[], params=['X', 'X', 'S', 'S', 'S', 'X'], attrs={},
                              fragment=make_frag_leading_raises('quantile'), frag_return='checked', raises=True,
                              what='the argument checks at the head of the method, in source order; `.error` carries the exception class, `.ok` the accepted `quantile`'))
+    specs.append(FormulaSpec('quantile_level_check', 'dists', ('pygam.py', 'GAM', '_get_quantiles', None),
+                             pre=[], params=['X', 'X', 'X', 'X', 'X', 'X', 'X', 'X'], attrs={},
+                             fragment=frag_quantile_level_check, frag_vars={'quantile': ('S', 'quantile')}, frag_return='checked', raises=True,
+                             what='the range check applied to every requested level (body of the first loop over `quantiles`); `.error` carries the exception class, `.ok` the accepted level'))
     specs.append(FormulaSpec('within_tol', 'dists', ('pygam.py', 'ExpectileGAM', 'fit_quantile', '_within_tol'),
                              pre=[], params=['S', 'S', 'S'], self_param=False,
                              what='`np.abs(x)` ↦ `if x < 0 then -x else x`'))
